@@ -204,13 +204,15 @@ func (k *Kernel) yield(detail string) {
 
 // File is an open file description of a simulated process.
 type File struct {
-	k      *Kernel
-	Name   string
-	node   fs.Node
-	h      fs.Handle
-	owner  fuse.LockOwner
-	closed bool
-	ino    *inode
+	k         *Kernel
+	Name      string
+	node      fs.Node
+	h         fs.Handle
+	owner     fuse.LockOwner
+	closed    bool
+	ino       *inode
+	t         *Tape // eviction choices of this descriptor
+	ownerTape *Tape
 }
 
 func (k *Kernel) lookup(name string) (fs.Node, syscall.Errno) {
@@ -321,6 +323,19 @@ func (k *Kernel) Open(name string, flags int, owner uint64) (*File, syscall.Errn
 	return &File{k: k, Name: name, node: node, h: h, owner: fuse.LockOwner(owner), ino: ino}, 0
 }
 
+// tape returns the descriptor's choice source: its own fork under a scheduler
+// (forked lazily by the goroutine using the descriptor), else the run's tape.
+func (f *File) tape() *Tape {
+	if f.t == nil {
+		if f.k.r.Sched != nil && f.ownerTape != nil {
+			f.t = f.ownerTape.Fork()
+		} else {
+			f.t = f.k.r.Tape
+		}
+	}
+	return f.t
+}
+
 // Attr returns the node's attributes (never cached: Valid=0).
 func (k *Kernel) attr(node fs.Node) (fuse.Attr, syscall.Errno) {
 	var a fuse.Attr
@@ -413,7 +428,7 @@ func (f *File) Pread(off int64, n int) ([]byte, syscall.Errno) {
 			k.mu.Lock()
 			page = f.ino.pages[p]
 			evicted := false
-			if page != nil && k.EvictPct > 0 && k.r.Tape.Chance(k.EvictPct, 100) {
+			if page != nil && k.EvictPct > 0 && f.tape().Chance(k.EvictPct, 100) {
 				delete(f.ino.pages, p)
 				page = nil
 				evicted = true
